@@ -1,5 +1,378 @@
 package main
 
-import "verif/harness/internal/fact"
+import (
+	"fmt"
+	"go/ast"
+	"go/token"
+	"strconv"
+	"strings"
 
-func genPar(g *fact.Gen) {}
+	"verif/harness/internal/fact"
+)
+
+// ---- tiny Go-expression -> Lean translator for the deciding expressions of par/work.go.
+// Operands are looked up (by whitespace-free source text) in `vars`; integer literals, the
+// comparison operators, `!`, `-` and `+` are understood.  Anything else is "unrecognised".
+
+type xl struct {
+	g    *fact.Gen
+	vars map[string]string
+}
+
+func (x xl) num(e ast.Expr) (string, bool) {
+	switch v := e.(type) {
+	case *ast.ParenExpr:
+		return x.num(v.X)
+	case *ast.BasicLit:
+		if v.Kind == token.INT {
+			if n, err := strconv.ParseInt(v.Value, 0, 64); err == nil && n >= 0 {
+				return strconv.FormatInt(n, 10), true
+			}
+		}
+		return "", false
+	case *ast.BinaryExpr:
+		if v.Op == token.SUB || v.Op == token.ADD {
+			a, ok1 := x.num(v.X)
+			b, ok2 := x.num(v.Y)
+			if ok1 && ok2 {
+				return "(" + a + " " + v.Op.String() + " " + b + ")", true
+			}
+		}
+		return "", false
+	}
+	if name, ok := x.vars[x.g.Src(e)]; ok {
+		return name, true
+	}
+	return "", false
+}
+
+func (x xl) boolean(e ast.Expr) (string, bool) {
+	switch v := e.(type) {
+	case *ast.ParenExpr:
+		return x.boolean(v.X)
+	case *ast.UnaryExpr:
+		if v.Op == token.NOT {
+			if b, ok := x.boolean(v.X); ok {
+				return "(!" + b + ")", true
+			}
+		}
+		return "", false
+	case *ast.BinaryExpr:
+		op := map[token.Token]string{token.EQL: "=", token.NEQ: "≠", token.LSS: "<", token.LEQ: "≤", token.GTR: ">", token.GEQ: "≥"}[v.Op]
+		if op == "" {
+			return "", false
+		}
+		a, ok1 := x.num(v.X)
+		b, ok2 := x.num(v.Y)
+		if ok1 && ok2 {
+			return "decide (" + a + " " + op + " " + b + ")", true
+		}
+		return "", false
+	}
+	if name, ok := x.vars["bool:"+x.g.Src(e)]; ok {
+		return name, true
+	}
+	return "", false
+}
+
+// emitExpr emits `def name (params) : Bool := <translated e>`; pinned is used when e is nil or unrecognised.
+func emitExpr(g *fact.Gen, name, doc, params string, vars map[string]string, e ast.Expr, why string, pinned string) {
+	body, ok := "", false
+	if e != nil {
+		body, ok = xl{g, vars}.boolean(e)
+		if !ok {
+			why = "unrecognised expression shape: " + g.Pretty(e)
+		}
+	}
+	if !ok {
+		body = pinned
+		g.Lost(name, why)
+	} else {
+		g.Found(name, g.Pretty(e))
+	}
+	g.Emit("/-- %s -/\ndef %s %s : Bool := %s\n", doc, name, params, body)
+}
+
+func emitNumExpr(g *fact.Gen, name, doc, params string, vars map[string]string, e ast.Expr, why string, pinned string) {
+	body, ok := "", false
+	if e != nil {
+		body, ok = xl{g, vars}.num(e)
+		if !ok {
+			why = "unrecognised expression shape: " + g.Pretty(e)
+		}
+	}
+	if !ok {
+		body = pinned
+		g.Lost(name, why)
+	} else {
+		g.Found(name, g.Pretty(e))
+	}
+	g.Emit("/-- %s -/\ndef %s %s : Int := %s\n", doc, name, params, body)
+}
+
+func stmtSrcs(g *fact.Gen, list []ast.Stmt) []string {
+	out := make([]string, len(list))
+	for i, s := range list {
+		out[i] = g.Src(s)
+	}
+	return out
+}
+
+func eqStrs(a []string, b ...string) bool {
+	if len(a) != len(b) {
+		return false
+	}
+	for i := range a {
+		if a[i] != b[i] {
+			return false
+		}
+	}
+	return true
+}
+
+func boolFact(g *fact.Gen, name, doc string, pinned bool, ok bool, why string, v bool) {
+	g.EmitBool(name, doc, pinned, func() (bool, bool, string) { return v, ok, why })
+}
+
+func genPar(g *fact.Gen) {
+	const rel = "par/work.go"
+	workVars := map[string]string{"len(w.todo)": "todoLen", "w.waiting": "waiting", "w.running": "running", "n": "n", "bool:w.added[item]": "present"}
+
+	// ------------------------------------------------------------------ Work.runner
+	runner := g.Method(rel, "Work", "runner")
+	var outer, inner *ast.ForStmt
+	var innerIf *ast.IfStmt
+	if runner != nil && len(runner.Body.List) == 1 {
+		outer, _ = runner.Body.List[0].(*ast.ForStmt)
+	}
+	var outerSrc []string
+	if outer != nil && outer.Cond == nil && outer.Init == nil && outer.Post == nil {
+		outerSrc = stmtSrcs(g, outer.Body.List)
+		if len(outer.Body.List) >= 2 {
+			inner, _ = outer.Body.List[1].(*ast.ForStmt)
+		}
+	} else {
+		outer = nil
+	}
+	var innerSrc []string
+	if inner != nil {
+		innerSrc = stmtSrcs(g, inner.Body.List)
+		if len(inner.Body.List) >= 2 {
+			innerIf, _ = inner.Body.List[1].(*ast.IfStmt)
+		}
+	}
+	// loop test
+	var e ast.Expr
+	if inner != nil && inner.Init == nil && inner.Post == nil {
+		e = inner.Cond
+	}
+	emitExpr(g, "loopTest", "runner: the wait loop runs while this holds (`for len(w.todo) == 0`), evaluated with the mutex held.", "(todoLen : Int)", workVars, e, "inner for loop of runner not found", "decide (todoLen = 0)")
+	e = nil
+	if innerIf != nil && innerIf.Init == nil && innerIf.Else == nil {
+		e = innerIf.Cond
+	}
+	emitExpr(g, "allDone", "runner: the all-done test (`w.waiting == w.running`) made right after `w.waiting++`.", "(waiting running : Int)", workVars, e, "all-done if statement not found", "decide (waiting = running)")
+	boolFact(g, "lockAtLoopTop", "runner: every iteration of the outer loop starts with `w.mu.Lock()` followed by the wait loop.", true,
+		outer != nil && inner != nil, "runner is not `for { w.mu.Lock(); for … }`", len(outerSrc) > 0 && outerSrc[0] == "w.mu.Lock()")
+	boolFact(g, "incrementBeforeTest", "runner: the wait loop body starts with `w.waiting++`, before the all-done test.", true,
+		inner != nil, "wait loop not found", len(innerSrc) > 0 && innerSrc[0] == "w.waiting++" && innerIf != nil)
+	boolFact(g, "broadcastOnAllDone", "runner: the all-done branch is exactly `w.wait.Broadcast(); w.mu.Unlock(); return`.", true,
+		innerIf != nil, "all-done if statement not found", innerIf != nil && eqStrs(stmtSrcs(g, innerIf.Body.List), "w.wait.Broadcast()", "w.mu.Unlock()", "return"))
+	boolFact(g, "unlockOnAllDone", "runner: the all-done branch ends with `w.mu.Unlock(); return`.", true,
+		innerIf != nil, "all-done if statement not found", innerIf != nil && func() bool {
+			s := stmtSrcs(g, innerIf.Body.List)
+			return len(s) >= 2 && s[len(s)-2] == "w.mu.Unlock()" && s[len(s)-1] == "return"
+		}())
+	boolFact(g, "waitAfterTest", "runner: `w.wait.Wait()` follows the all-done test inside the wait loop.", true,
+		inner != nil, "wait loop not found", len(innerSrc) >= 3 && innerSrc[2] == "w.wait.Wait()")
+	boolFact(g, "decrementAfterWait", "runner: `w.waiting--` directly follows `w.wait.Wait()` and ends the wait loop body.", true,
+		inner != nil, "wait loop not found", len(innerSrc) == 4 && innerSrc[2] == "w.wait.Wait()" && innerSrc[3] == "w.waiting--")
+	boolFact(g, "pickIsSwapRemove", "runner: after the wait loop: `i := rand.Intn(len(w.todo)); item := w.todo[i]; w.todo[i] = w.todo[len(w.todo)-1]; w.todo = w.todo[:len(w.todo)-1]`.", true,
+		outer != nil, "runner outer loop not found", len(outerSrc) >= 6 && eqStrs(outerSrc[2:6], "i:=rand.Intn(len(w.todo))", "item:=w.todo[i]", "w.todo[i]=w.todo[len(w.todo)-1]", "w.todo=w.todo[:len(w.todo)-1]"))
+	boolFact(g, "unlockBeforeF", "runner: the iteration ends with `w.mu.Unlock(); w.f(item)` (f runs outside the mutex).", true,
+		outer != nil, "runner outer loop not found", len(outerSrc) == 8 && outerSrc[6] == "w.mu.Unlock()" && outerSrc[7] == "w.f(item)")
+
+	// ------------------------------------------------------------------ Work.Add
+	add := g.Method(rel, "Work", "Add")
+	var addSrc []string
+	var addIf, sigIf *ast.IfStmt
+	if add != nil {
+		addSrc = stmtSrcs(g, add.Body.List)
+		for _, st := range add.Body.List {
+			if is, ok := st.(*ast.IfStmt); ok && addIf == nil {
+				addIf = is
+			}
+		}
+	}
+	var addBody []string
+	if addIf != nil {
+		addBody = stmtSrcs(g, addIf.Body.List)
+		for _, st := range addIf.Body.List {
+			if is, ok := st.(*ast.IfStmt); ok && sigIf == nil {
+				sigIf = is
+			}
+		}
+	}
+	e = nil
+	if addIf != nil && addIf.Init == nil && addIf.Else == nil {
+		e = addIf.Cond
+	}
+	emitExpr(g, "addGuard", "Add: the item is enqueued only if this holds (`!w.added[item]`); `present` = w.added[item].", "(present : Bool)", workVars, e, "guard of Add not found", "(!present)")
+	boolFact(g, "addUnderLock", "Add: the body is `w.mu.Lock(); w.init(); if … {…}; w.mu.Unlock()`.", true,
+		add != nil, "method Add not found", len(addSrc) == 4 && addSrc[0] == "w.mu.Lock()" && addSrc[1] == "w.init()" && addIf != nil && addSrc[3] == "w.mu.Unlock()")
+	boolFact(g, "addMarksAndAppends", "Add: the guarded block starts with `w.added[item] = true; w.todo = append(w.todo, item)`.", true,
+		addIf != nil, "guard of Add not found", len(addBody) >= 2 && addBody[0] == "w.added[item]=true" && addBody[1] == "w.todo=append(w.todo,item)")
+	e = nil
+	if sigIf != nil && sigIf.Init == nil && sigIf.Else == nil {
+		e = sigIf.Cond
+	}
+	emitExpr(g, "signalTest", "Add: Signal is called when this holds (`w.waiting > 0`).", "(waiting : Int)", workVars, e, "signal test of Add not found", "decide (waiting > 0)")
+	boolFact(g, "signalWhenWaiting", "Add: after appending, `if w.waiting > 0 { w.wait.Signal() }` is the last statement of the guarded block.", true,
+		addIf != nil, "guard of Add not found", sigIf != nil && len(addBody) == 3 && eqStrs(stmtSrcs(g, sigIf.Body.List), "w.wait.Signal()"))
+
+	// ------------------------------------------------------------------ Work.Do
+	do := g.Method(rel, "Work", "Do")
+	var doSrc []string
+	if do != nil {
+		doSrc = stmtSrcs(g, do.Body.List)
+	}
+	var panicIf *ast.IfStmt
+	var spawnLoop *ast.RangeStmt
+	if do != nil {
+		for _, st := range do.Body.List {
+			if is, ok := st.(*ast.IfStmt); ok && panicIf == nil {
+				panicIf = is
+			}
+			if rs, ok := st.(*ast.RangeStmt); ok && spawnLoop == nil {
+				spawnLoop = rs
+			}
+		}
+	}
+	e = nil
+	if panicIf != nil && strings.HasPrefix(g.Src(panicIf.Body), "{panic(") {
+		e = panicIf.Cond
+	}
+	emitExpr(g, "doPanics", "Do: panics when this holds (`n < 1`).", "(n : Int)", workVars, e, "n<1 panic of Do not found", "decide (n < 1)")
+	var cnt ast.Expr
+	if spawnLoop != nil && spawnLoop.Key == nil && spawnLoop.Value == nil && eqStrs(stmtSrcs(g, spawnLoop.Body.List), "gow.runner()") {
+		cnt = spawnLoop.X
+	}
+	emitNumExpr(g, "spawnCount", "Do: number of `go w.runner()` statements executed (`for range n - 1`).", "(n : Int)", workVars, cnt, "spawn loop of Do not found", "(n - 1)")
+	boolFact(g, "doSetsRunningThenSpawns", "Do: `w.running = n` precedes the spawn loop, and Do ends with `w.runner()` (the caller is the n-th runner).", true,
+		do != nil, "method Do not found", func() bool {
+			ir, is := -1, -1
+			for i, s := range doSrc {
+				if s == "w.running=n" {
+					ir = i
+				}
+				if strings.HasPrefix(s, "forrange") {
+					is = i
+				}
+			}
+			return ir >= 0 && is > ir && len(doSrc) > 0 && doSrc[len(doSrc)-1] == "w.runner()" && is == len(doSrc)-2
+		}())
+
+	// ------------------------------------------------------------------ Cache.Do
+	cdo := g.Method(rel, "Cache", "Do")
+	var cdoSrc []string
+	var missIf, outerIf, innerDone *ast.IfStmt
+	if cdo != nil {
+		cdoSrc = stmtSrcs(g, cdo.Body.List)
+		for _, st := range cdo.Body.List {
+			if is, ok := st.(*ast.IfStmt); ok {
+				if g.Src(is.Cond) == "!ok" && missIf == nil {
+					missIf = is
+				} else if strings.Contains(g.Src(is.Cond), "atomic.LoadUint32(&e.done)") && outerIf == nil {
+					outerIf = is
+				}
+			}
+		}
+	}
+	var outerBody []string
+	if outerIf != nil {
+		outerBody = stmtSrcs(g, outerIf.Body.List)
+		for _, st := range outerIf.Body.List {
+			if is, ok := st.(*ast.IfStmt); ok && innerDone == nil && strings.Contains(g.Src(is.Cond), "atomic.LoadUint32(&e.done)") {
+				innerDone = is
+			}
+		}
+	}
+	cacheVars := map[string]string{"atomic.LoadUint32(&e.done)": "v"}
+	boolFact(g, "loadThenLoadOrStore", "Cache.Do starts with `entryIface, ok := c.m.Load(key)` and on a miss `entryIface, _ = c.m.LoadOrStore(key, new(cacheEntry))`.", true,
+		cdo != nil, "method Cache.Do not found", len(cdoSrc) >= 2 && cdoSrc[0] == "entryIface,ok:=c.m.Load(key)" && missIf != nil &&
+			eqStrs(stmtSrcs(g, missIf.Body.List), "entryIface,_=c.m.LoadOrStore(key,new(cacheEntry))") && missIf.Else == nil)
+	e = nil
+	if outerIf != nil && outerIf.Init == nil && outerIf.Else == nil {
+		e = outerIf.Cond
+	}
+	emitExpr(g, "outerNotDone", "Cache.Do: the slow path is taken when this holds for v = atomic.LoadUint32(&e.done) (`== 0`).", "(v : Int)", cacheVars, e, "outer done check not found", "decide (v = 0)")
+	boolFact(g, "outerDoneCheck", "Cache.Do: an unlocked `atomic.LoadUint32(&e.done) == 0` test guards the slow path and `return e.result` follows it.", true,
+		cdo != nil, "method Cache.Do not found", outerIf != nil && len(cdoSrc) == 5 && cdoSrc[4] == "returne.result")
+	boolFact(g, "lockAroundInner", "Cache.Do: the slow path is `e.mu.Lock(); if … {…}; e.mu.Unlock()`.", true,
+		outerIf != nil, "outer done check not found", len(outerBody) == 3 && outerBody[0] == "e.mu.Lock()" && outerBody[2] == "e.mu.Unlock()")
+	e = nil
+	if innerDone != nil && innerDone.Init == nil && innerDone.Else == nil {
+		e = innerDone.Cond
+	}
+	emitExpr(g, "innerNotDone", "Cache.Do: under the entry mutex f is called when this holds for v = atomic.LoadUint32(&e.done) (`== 0`).", "(v : Int)", cacheVars, e, "inner done check not found", "decide (v = 0)")
+	boolFact(g, "innerDoneCheck", "Cache.Do: done is tested again (atomic load) after acquiring the entry mutex.", true,
+		outerIf != nil, "outer done check not found", innerDone != nil && len(outerBody) == 3 && outerBody[1] == g.Src(innerDone))
+	var innerBody []string
+	if innerDone != nil {
+		innerBody = stmtSrcs(g, innerDone.Body.List)
+	}
+	storeOK := outerIf != nil && (innerDone != nil || len(outerBody) > 0)
+	if innerDone == nil {
+		innerBody = outerBody
+	}
+	iRes, iStore := -1, -1
+	storeVal := ""
+	for i, s := range innerBody {
+		if s == "e.result=f()" {
+			iRes = i
+		}
+		if strings.HasPrefix(s, "atomic.StoreUint32(&e.done,") {
+			iStore = i
+			storeVal = strings.TrimSuffix(strings.TrimPrefix(s, "atomic.StoreUint32(&e.done,"), ")")
+		}
+	}
+	boolFact(g, "storeAfterResult", "Cache.Do: `e.result = f()` precedes `atomic.StoreUint32(&e.done, 1)` (publication order).", true,
+		storeOK && iRes >= 0 && iStore >= 0, "e.result = f() / atomic.StoreUint32(&e.done, …) not found", iRes < iStore)
+	g.EmitBool("unlockAfterStore", "Cache.Do: `e.mu.Unlock()` comes after the block that writes result and done.", true, func() (bool, bool, string) {
+		if outerIf == nil {
+			return false, false, "outer done check not found"
+		}
+		return len(outerBody) > 0 && outerBody[len(outerBody)-1] == "e.mu.Unlock()", true, ""
+	})
+	if v, err := strconv.Atoi(storeVal); err == nil && v >= 0 {
+		g.Found("doneStoreValue", storeVal)
+		g.Emit("/-- Cache.Do: the value stored into e.done. -/\ndef doneStoreValue : Int := %d\n", v)
+	} else {
+		g.Lost("doneStoreValue", "atomic.StoreUint32(&e.done, <int literal>) not found")
+		g.Emit("/-- Cache.Do: the value stored into e.done. -/\ndef doneStoreValue : Int := 1\n")
+	}
+
+	// ------------------------------------------------------------------ Cache.Get
+	get := g.Method(rel, "Cache", "Get")
+	var getSrc []string
+	var getDoneIf *ast.IfStmt
+	if get != nil {
+		getSrc = stmtSrcs(g, get.Body.List)
+		for _, st := range get.Body.List {
+			if is, ok := st.(*ast.IfStmt); ok && strings.Contains(g.Src(is.Cond), "atomic.LoadUint32(&e.done)") && getDoneIf == nil {
+				getDoneIf = is
+			}
+		}
+	}
+	boolFact(g, "getChecksMap", "Cache.Get starts with `entryIface, ok := c.m.Load(key); if !ok { return nil }`.", true,
+		get != nil, "method Cache.Get not found", len(getSrc) >= 2 && getSrc[0] == "entryIface,ok:=c.m.Load(key)" && getSrc[1] == "if!ok{returnnil}")
+	e = nil
+	if getDoneIf != nil && getDoneIf.Init == nil && getDoneIf.Else == nil && eqStrs(stmtSrcs(g, getDoneIf.Body.List), "returnnil") {
+		e = getDoneIf.Cond
+	}
+	emitExpr(g, "getNotDone", "Cache.Get returns nil when this holds for v = atomic.LoadUint32(&e.done) (`== 0`).", "(v : Int)", cacheVars, e, "done check of Get not found", "decide (v = 0)")
+	boolFact(g, "getChecksDone", "Cache.Get: `if atomic.LoadUint32(&e.done) == 0 { return nil }` precedes `return e.result`, and Get takes no lock.", true,
+		get != nil, "method Cache.Get not found", getDoneIf != nil && len(getSrc) == 5 && getSrc[3] == g.Src(getDoneIf) && getSrc[4] == "returne.result" &&
+			!strings.Contains(g.Src(get.Body), "Lock()"))
+	_ = fmt.Sprint
+}
